@@ -140,8 +140,15 @@ impl Clock {
     pub fn get() -> (r: Result<ClockData>) ensures r matches Ok(c) ==> c.epoch == current_epoch() { unimplemented!() }
 }
 /// C16: the schedule applied is the one in force in the current epoch (none for a plain SPL-token mint or a mint without the extension)
+/// the fee schedule the Token-2022 program applies to transfers of this mint now (None: plain SPL token or no transfer-fee extension)
+pub open spec fn mint_schedule(m: Mint) -> Option<TransferFee> {
+    if m.owner_program == token_program_id() { None } else { match m.fee_config { Some(c) => Some(c.in_force(current_epoch())), None => None } }
+}
+/// the fee withheld from a transfer of x units of this mint
+pub open spec fn mint_fee(m: Mint, x: int) -> int { match mint_schedule(m) { Some(f) => f.fee(x), None => 0 } }
 //@ fn util/v2/token.rs get_epoch_transfer_fee -> r
     ensures
+        r matches Ok(o) ==> o == mint_schedule(token_mint.data),
         token_mint.data.owner_program == token_program_id() ==> r matches Ok(None),
         r matches Ok(Some(f)) ==> f.wf() && (token_mint.data.fee_config matches Some(c) && f == c.in_force(current_epoch())),
         r matches Ok(None) ==> token_mint.data.owner_program == token_program_id() || token_mint.data.fee_config is None,
@@ -153,6 +160,8 @@ impl Clock {
         // removing the fee from an amount and the fee itself always add back to that amount
         r matches Ok(x) ==> x.amount as int + x.transfer_fee as int == transfer_fee_included_amount as int
             && (x.transfer_fee == 0 || exists|f: TransferFee| #[trigger] f.wf() && x.transfer_fee as int == f.fee(transfer_fee_included_amount as int)),
+        // the fee is the one of THIS mint's schedule in force
+        r matches Ok(x) ==> x.transfer_fee as int == mint_fee(token_mint.data, transfer_fee_included_amount as int),
 //@ end
 
 //@ fn util/v2/token.rs calculate_transfer_fee_included_amount -> r
@@ -161,6 +170,8 @@ impl Clock {
             // the fee the token program will charge on x.amount is exactly x.transfer_fee, so the vault receives exactly the needed amount
             && (x.transfer_fee == 0 || exists|f: TransferFee| #[trigger] f.wf() && x.transfer_fee as int == f.fee(x.amount as int)),
         transfer_fee_excluded_amount == 0 ==> (r matches Ok(x) && x.amount == 0 && x.transfer_fee == 0),
+        // the fee THIS mint's schedule charges on the included amount is the reported fee: the receiver gets exactly the excluded amount
+        r matches Ok(x) ==> x.transfer_fee as int == mint_fee(token_mint.data, x.amount as int),
 //@ end
 }
 
